@@ -33,6 +33,9 @@ CLAIMED = {
  "C12": ("deterministic simulation with fault injection: seeded histories of roster results, authorised/forged pushes, presences, link losses and (non-)resumptions against a roster/presence reference model fed from the wire",
          "seeded search over histories; refinement against a small reference model after every step; a clean batch is evidence, not proof",
          "transport and server simulated; own-full-JID pushes are not judged"),
+ "C08": ("deterministic simulation with adversarial peers inside a live session: seeded IQs (6 sender classes x 6 types x 49 payloads x id collisions with the client's own pending requests) against three extension sets, interleaved with deliveries, cuts and reconnects; reply counter per (sender, id)",
+         "seeded search over inputs, configurations and interleavings with the client's own outstanding requests; a clean batch is evidence, not proof",
+         "transport and server simulated; stream management off"),
  "C09": ("deterministic simulation with fault injection: seeded histories of sends, acks (honest/adversarial), link losses and resumptions against an executable XEP-0198 reference model fed from the wire",
          "seeded search over histories and fault sequences with a real client and an independent scripted server; refinement against a small reference model after every step",
          "transport, TLS, clock and server are simulated; server-to-client delivery is element-wise"),
